@@ -5,7 +5,7 @@ import re
 
 from ..core import AnalysisError, norm, short, walk_local
 from ..kinds import (RELATIONS, FIELD_OWNER, FIELD_TYPES, CONCRETE, kinds_of, typer_for, field_class)
-from ..pairing import O2_RELATIONS, VALID_EXIT, expand_defs, Pairing, with_def_consequences
+from ..pairing import O2_RELATIONS, VALID_EXIT, expand_defs, Pairing, with_def_consequences, flag_consequences
 from ..typestate import is_public_entry, is_clone_family, classify_set
 from . import register
 from ..inline import inlined_view
@@ -225,6 +225,30 @@ def _has_bp_atom(facts, var, bp_names):
             else:
                 if body in ("%s.%s,self" % (var, b), "self,%s.%s" % (var, b), "%s._%s,self" % (var, b.lstrip("_")), "self,%s._%s" % (var, b.lstrip("_"))):
                     return True
+    return False
+
+
+def _raising_validation(f, bp_names, excluded, before):
+    """`for x in S: if <x does not belong>: raise ...` ahead of the write: every element that gets past the loop was checked"""
+    for lp in walk_local(f.node):
+        if not (isinstance(lp, ast.For) and norm(lp.iter) == excluded and lp.lineno < before and not lp.orelse
+                and any(isinstance(x, ast.Raise) for x in ast.walk(lp))):
+            continue
+        if getattr(lp, "_parent", None) is not f.node:
+            continue  # must dominate the write: a statement of the function body itself
+        var = norm(lp.target)
+        n_acc, ok = 0, True
+        for oc, fa, df in _stmt_paths(lp.body, frozenset(), {}, None):
+            if oc is None or oc in ("break",) or (isinstance(oc, tuple) and oc[0] == "return"):
+                ok = False
+                break
+            if oc == "raise":
+                continue
+            n_acc += 1
+            if not _has_bp_atom(fa, var, bp_names):
+                ok = False
+        if ok and n_acc:
+            return True
     return False
 
 
@@ -486,7 +510,7 @@ def _o2(ctx, R):
                 if S is None:
                     R.bad("O2", "%s|%s|bulk-shape" % (f.key, rel.name), where, "%s: cannot identify the excluded set of the rebuild `%s`" % (f.qualname, short(re_.ev.stmt, 60)))
                     continue
-                if every(facts, lambda w: _universal_guard(ctx.P, f, w, bp, S)):
+                if every(facts, lambda w: _universal_guard(ctx.P, f, w, bp, S)) or _raising_validation(f, bp, S, re_.ev.stmt.lineno):
                     R.ok("O2", inst + " guarded by all(x.%s == self for x in %s)" % (bp[1], S), where)
                 else:
                     R.bad("O2", "%s|%s|bulk-guard" % (f.key, rel.name), where,
@@ -907,7 +931,8 @@ def _m_setter(ctx, R):
             for cn in fe.cfg.nodes:
                 if cn.id in st and any(e.kind == "write" and e.field == "_pins" and e.op == "pop" for e in fe.by_node[cn.id]):
                     for fa, rl, tk in st[cn.id]:
-                        fa = with_def_consequences(fa)
+                        fa = with_def_consequences(flag_consequences(f.node, fa))
+                        fa = fa | frozenset(expand_defs(a, fa) for a in fa if not a.startswith("def("))
                         pop_facts = fa if pop_facts is None else (pop_facts & fa)
             if pop_facts is not None:
                 ports_eq = any(re.match(r"eq\(len\((.+)\.ports\),len\((.+)\.ports\)\)$", a) for a in pop_facts)
